@@ -80,6 +80,12 @@ class C11:
                 out.append({"kind": "schema", "flags": flags, "pre": pre, "register": good, "text": text, "expect": expect})
                 for k, p in enumerate(good):
                     out.append({"kind": "schema", "flags": flags, "pre": pre, "register": [p], "text": text, "expect": [expect[k]]})
+                if flags & F_NOCASE:
+                    # section steps and the leaf spelled in another case than the declaration
+                    other = ["MULTI|x", "Tm|X", "TM|Deep|D", "Single|x", "SINGLE|mi|W", "single|INNER|z", "I"]
+                    out.append({"kind": "schema", "flags": flags, "pre": pre, "register": other, "text": text, "expect": expect})
+                    for k, p in enumerate(other):
+                        out.append({"kind": "schema", "flags": flags, "pre": pre, "register": [p], "text": text, "expect": [expect[k]]})
                 broken = ["multi|", "|multi|x|", "|multi|x", "||single|x", "|i", "nosuch|x", "i|x", "multi|x|", "tm|deep|", "single|nosuch", "multi|nosuch|x", "", "|", "tm=a|x", "multi=0|x", "single|inner|z|"]
                 out.append({"kind": "schema", "flags": flags, "pre": pre, "register": broken, "text": text, "expect": []})
         return out
